@@ -37,7 +37,7 @@ def table(pid, module, pkg, what, ref):
         category='model_checking', text=what, ref=ref, note=TABLE_NOTE)
 
 CHECKS = {
- 'C02': table('C02', 'Wire', 'wirefam', 'JSON-RPC conformance and survival on arbitrary inbound records: the verdict function of spec/Wire.tla (a transcription of the property statement, not of the Go code) is evaluated by TLC over all 15400 combinations of per-field variants; each cell is sent as a single object, inside arrays and in random batches to a real Server (AllowPush off and on) inside a synctest bubble; handler invocations and output records at quiescence are compared with the allowed outcome set, outputs are validated by an independent JSON-RPC response validator, and a liveness probe follows. Seeded mutations beyond the bound use the survival / valid-output oracle.', 'DESIGN.md §4 C02'),
+ 'C02': table('C02', 'Wire', 'wirefam', 'JSON-RPC conformance and survival on arbitrary inbound records: the verdict function of spec/Wire.tla (a transcription of the property statement, not of the Go code) is evaluated by TLC over all 15400 combinations of per-field variants; each cell is sent as a single object, inside arrays and in random batches to a real Server (AllowPush off and on) inside a synctest bubble; handler invocations and output records at quiescence are compared with the allowed outcome set, outputs are validated by an independent JSON-RPC response validator, and a liveness probe follows. Seeded mutations beyond the bound use the survival / valid-output oracle. In addition a workload of the server family (TLC-simulated behaviours of ServerImpl and the directed histories) is replayed into the real Server and its traces are validated by TLC against ServerContract with the guards tagged C02 enforced (invalid, unknown and reply-shaped members never run and get the error of their class), and look-alike replies are sent to a push server with a callback outstanding.', 'DESIGN.md §4 C02, §10.22'),
  'C13': dict(technique='TLA+ reference function (spec/Wire.tla Flagged) table replay into ParseRequests + TLC trace validation of the message-grammar guard (ChanDiscipline, tag C13) on every Send event of the concurrent families + TLC-enumerated product (spec/Emit.tla) pushed through every emission path with a decode(encode(x)) = x oracle',
         category='model_checking',
         text='(a) ParseRequests is total, reports a top-level error exactly for invalid JSON, returns one entry per member in order and flags exactly the structurally invalid members, per the Wire table (model-based). '
@@ -61,7 +61,7 @@ CHECKS = {
  'C06': server('C06', 'Concurrency limit, work conservation at every quiescent point, cancelled waiters never run.', 'DESIGN.md §4 C06'),
  'C07': server('C07', 'Cancellation hits only its target; ids reserved exactly while in flight.', 'DESIGN.md §4 C07'),
  'C08': server('C08', 'Crash-free, clean, restartable shutdown for Stop / peer close / Recv error / Send error at every position.', 'DESIGN.md §4 C08'),
- 'C10': dict(technique='TLA+ model checking (ChanLock: lock-based sender/closer model, TLC exhaustive, plus a must-fail unlocked variant) + TLC trace validation of instrumented-channel begin/end events against the ChanDiscipline monitor, with in-operation overlap probes under gate control',
+ 'C10': dict(technique='TLA+ model checking (ChanLock: lock-based sender/closer model, TLC exhaustive, plus a must-fail unlocked variant) + TLC trace validation of instrumented-channel begin/end events against the ChanDiscipline monitor, with in-operation overlap probes under gate control; the connections of server.Loop are validated against LoopContract (closed exactly once, guard tagged C10)',
         category='model_checking',
         text='Channel discipline: one Send, one Recv, no Send/Close overlap, one Close per Start/NewClient, whole messages. Design level: spec/ChanLock.tla (every channel-touching site as a process with separate lock/begin/end/unlock steps) is checked exhaustively; the variant with one site outside the lock must violate the invariants. '
              'Code level: the workloads of the server and client families run with overlap probes: a goroutine is parked INSIDE Send/Close (holding whatever lock the library holds) while every other parked goroutine and concurrent Stop/Notify/CancelRequest/Close calls are released and an extended-quiescence detector (consistent stack snapshot: durable wait or sync.Mutex wait) decides when they have settled; the begin/end events of every trace are validated by TLC against spec/ChanDiscipline.tla.',
